@@ -34,8 +34,6 @@ import (
 	"k8s.io/klog/v2"
 )
 
-var errRetry = errors.New("retry")
-
 // PreorderedLogClient is a means of communicating with a single Trillian
 // pre-ordered log tree.
 type PreorderedLogClient struct {
@@ -122,7 +120,9 @@ func (c *PreorderedLogClient) addSequencedLeaves(ctx context.Context, b *scanner
 		case codes.ResourceExhausted: // There was (probably) a quota error.
 			end := b.Start + int64(len(b.Entries))
 			klog.Errorf("%d: retrying batch [%d, %d) due to error: %v", c.treeID, b.Start, end, err)
-			return errRetry
+			// Hand the gRPC error itself to the back-off: only errors carrying
+			// a retryable status code make backoff.Retry try again.
+			return err
 		case codes.OK:
 			if rsp == nil {
 				err = errors.New("missing AddSequencedLeaves response")
